@@ -74,12 +74,15 @@ def _cpu_seconds_tree(pid):
     return total
 
 
-def vanity_cap(ndigits, threads):
-    """Entropy-request cap that bounds a vanity search on logical steps. Base: P(a correct search needs more) < 1e-20. With two or
-    more workers the losers keep requesting entropy between the winner's send and the process exit, so a slack of 20000 requests per
-    worker (about half a minute of scheduling delay at full speed) is added: a loaded machine must never turn into an alarm."""
-    base = {0: 300, 1: 800, 2: 12000, 3: 190000}.get(ndigits, 190000 * 16 ** max(0, ndigits - 3))
-    return base if threads <= 1 else base + 20000 * min(threads, 16)
+def vanity_cap(ndigits, threads=None):
+    """Entropy-request cap that bounds a vanity search on logical steps: P(a correct search needs more candidates) < 1e-20.
+    With two or more workers the losers keep requesting entropy between the winner's send and the process exit; the interposer
+    adds CAP_SLACK requests per thread *it has seen* (about half a minute of scheduling delay at full speed), so neither a loaded
+    machine nor a tool that chooses its own worker count can turn into an alarm. `threads` is accepted for old call sites."""
+    return {0: 300, 1: 800, 2: 12000, 3: 190000}.get(ndigits, 190000 * 16 ** max(0, ndigits - 3))
+
+
+CAP_SLACK = 20000
 
 
 AMBIENT = [
@@ -358,9 +361,11 @@ class Cli:
                 env["LD_PRELOAD"] = self.interposer
                 logpath = os.path.join(d, "entropy.log")
                 env["VERIF_ENT_LOG"] = logpath
-                for k in ("MODE", "SEED", "HEX", "FAIL_AT", "FAIL_FROM", "CAP", "DELAY", "ERRNO", "POSTFAIL_DELAY"):
+                for k in ("MODE", "SEED", "HEX", "FAIL_AT", "FAIL_FROM", "CAP", "CAP_SLACK", "DELAY", "ERRNO", "POSTFAIL_DELAY"):
                     if ent.get(k) is not None:
                         env["VERIF_ENT_" + k] = str(ent[k])
+                if ent.get("CAP") is not None and ent.get("CAP_SLACK") is None:
+                    env["VERIF_ENT_CAP_SLACK"] = str(CAP_SLACK)
             stdin = bytes.fromhex(spec["stdin_hex"]) if spec.get("stdin_hex") is not None else b""
             # environment values may be arbitrary bytes (invalid UTF-8 workloads)
             benv = {}
